@@ -3,7 +3,7 @@ prop(
     quick=[("native", 12), ("miri", 4)],
     thorough=[("native", 16), ("asan", 8), ("miri", 4), ("fuzz", 16)],
     level="exploration",
-    min_evals={"quick": 150_000, "thorough": 3_500_000},
+    min_evals={"quick": 450_000, "thorough": 3_500_000},
     # configuration of the `fuzz` stage (driver side: run_fuzz_stage in ../../check, target: harness/fuzz/fuzz_targets/c09_rrdp.rs)
     fuzz={
         "seconds": 120,
@@ -46,7 +46,13 @@ prop(
         "parse_limited, Snapshot::parse / Delta::parse or the harness' collecting ProcessSnapshot / ProcessDelta) and the reader chunking (slice, or BufReader of 1/2/5/16/4096 "
         "octets over a dribbling reader), the rest (up to 16 KiB) is the document; judged by the same function as the mutants of (5): no panic, and a value the owned parser "
         "accepts must survive write_xml followed by a parse to an equal value. Seeded with ~360 small generated files in the library's and in foreign spellings; "
-        "executions are counted as evaluations, not as signatures."
+        "executions are counted as evaluations, not as signatures. "
+        "(7) Sinks that start refusing: small notification / snapshot / delta values (0..3 children, so that an empty root, a last <withdraw/> and a last "
+        "<publish>text</publish> all occur) and documents built directly with rpki::xml::encode::Writer (nested and empty elements, escaped attributes, PCDATA, raw text, Base64, "
+        "ending in Writer::done) are written into a sink with room for exactly r bytes, for EVERY r from 0 to the document length + 1 (Miri: every 128th r and the last 26), "
+        "taking unlimited / 1 / 7 bytes per call and, at the edge, either the part that still fits or nothing; once full the sink fails every write for good. Oracle: write_xml may "
+        "return Ok only if the complete document (byte-identical to what the same value wrote into a Vec and parsed back) arrived; an error with the complete document is left open. "
+        "Each write is one evaluation; signature (kind, child count, kind of last child, length class)."
     ),
     assumptions=[
         "the per-element limits are the two numbers exported by hook H2 (rpki::rrdp::VERIF_LIMITS); header limit applies to every element of a notification file and to the root element of snapshot/delta files, file limit to the children and content of snapshot/delta files (as configured by the calls to start_with_limit / take_opt_element_with_limit)",
@@ -68,6 +74,6 @@ prop(
         "Sampled, not exhaustive: held on the explored cases only. The byte bound is checked for 25 hostile shapes at the element positions "
         "of small prefix documents, not for every conceivable token; memory is bounded only loosely (4x)."
     ),
-    technique="runtime oracles + counting reader under unbounded hostile generators + counting allocator; Miri and ASan stages; libFuzzer on the parsers",
+    technique="runtime oracles + counting reader under unbounded hostile generators + counting allocator + failing-sink sweep over every cut-off point of every writer; Miri and ASan stages; libFuzzer on the parsers",
     design_ref="DESIGN.md §4 C09, §5 H2",
 )
